@@ -10,7 +10,7 @@
 import numpy as np
 
 from pyxel.detectors import Detector
-from pyxel.util import get_dtype
+from pyxel.util import convert_to_unsigned, get_dtype
 
 
 def apply_sar_adc(
@@ -58,7 +58,7 @@ def apply_sar_adc(
         ref /= 2.0
 
     dtype = get_dtype(adc_bits)
-    return data_digitized_2d.astype(dtype)
+    return convert_to_unsigned(data_digitized_2d, bit_resolution=adc_bits, dtype=dtype)
 
 
 # TODO: documentation, range volt - only max is used
